@@ -61,6 +61,17 @@ def upd_history(m, rng, c, p, kind, tag):
     c.Sigma = S2
 
 
+def ctor_grid(seed, tag, tier):
+    """(tuple, case tag): constructor variants that the drawn `give` may not hit — every class built from Lambda only and from
+    all three covariance arguments; general classes with the default (absent) offset and Dy != Dx"""
+    out = [(("full", 1, 1, 2, 3), "/giveL"), (("diag", 1, 2, 2, 3), "/giveL"), (("identity", 1, 2, 2, 2), "/giveL"),
+           (("identitydiag", 1, 1, 3, 3), "/giveL"), (("identitydiag", 2, 1, 2, 2), "/giveA"), (("diag", 2, 1, 3, 2), "/giveA"),
+           (("diag", 1, 1, 1, 3), "/bnone"), (("full", 1, 2, 1, 2), "/bnone"), (("diag", 1, 1, 3, 2), "/bnone/giveL")]
+    if tier != "quick":
+        out += [(("full", 2, 1, 3, 1), "/giveA"), (("identity", 3, 1, 3, 3), "/giveA"), (("full", 1, 1, 3, 2), "/bnone/giveA")]
+    return out
+
+
 def upd_grid(seed, tag, tier):
     out = [("full", 1, 1, 2, 3), ("identity", 1, 2, 2, 2), ("diag", 2, 1, 3, 2), ("identitydiag", 1, 1, 3, 3)]
     if tier != "quick":
@@ -84,7 +95,7 @@ def case_joint(prop, cls, Rc, Rx, Dy, Dx, tag=""):
     def fn(m):
         rng = gen.rng_path(m.seed, label)
         fails = []
-        c = mk_cond(m, rng, cls, Rc, Dy, Dx)
+        c = mk_cond(m, rng, cls, Rc, Dy, Dx, tag=tag)
         p = mk_pdf(m, rng, Rx, Dx, diag=("pdiag" in tag))      # tag '/pdiag': the prior is a GaussianDiagPDF
         upd_history(m, rng, c, p, "joint", tag)
         j = m.transform("joint", c.reg, p.reg)
@@ -125,7 +136,7 @@ def case_marginal(prop, cls, Rc, Rx, Dy, Dx, tag=""):
     def fn(m):
         rng = gen.rng_path(m.seed, label)
         fails = []
-        c = mk_cond(m, rng, cls, Rc, Dy, Dx)
+        c = mk_cond(m, rng, cls, Rc, Dy, Dx, tag=tag)
         p = mk_pdf(m, rng, Rx, Dx, diag=("pdiag" in tag))      # tag '/pdiag': the prior is a GaussianDiagPDF
         upd_history(m, rng, c, p, "marginal", tag)
         mg = m.transform("marginal", c.reg, p.reg)
@@ -160,7 +171,7 @@ def case_conditional(prop, cls, Rc, Rx, Dy, Dx, tag=""):
     def fn(m):
         rng = gen.rng_path(m.seed, label)
         fails = []
-        c = mk_cond(m, rng, cls, Rc, Dy, Dx)
+        c = mk_cond(m, rng, cls, Rc, Dy, Dx, tag=tag)
         p = mk_pdf(m, rng, Rx, Dx, diag=("pdiag" in tag))      # tag '/pdiag': the prior is a GaussianDiagPDF
         upd_history(m, rng, c, p, "conditional", tag)
         post = m.transform("conditional", c.reg, p.reg)
@@ -213,7 +224,7 @@ def case_set_y(prop, cls, R, N, Dy, Dx, tag=""):
     def fn(m):
         rng = gen.rng_path(m.seed, label)
         fails = []
-        c = mk_cond(m, rng, cls, R, Dy, Dx)
+        c = mk_cond(m, rng, cls, R, Dy, Dx, tag=tag)
         y = gen.points(rng, N, Dy, 1.5); x = gen.points(rng, 3, Dx, 1.5)
         yr = m.arr(y); xr = m.arr(x)
         f = m.set_y(c.reg, yr)
@@ -264,7 +275,7 @@ def case_info(prop, cls, Rc, Rx, Dy, Dx, tag="", zero_M=False):
             M = np.zeros((Rc, Dy, Dx)); b = rng.standard_normal((Rc, Dy))
             c = Obj(m.cond(Rc, Dy, Dx, M, b, Sigma=S, diag=(cls == "diag")), M=M, b=b, Sigma=S, R=Rc, Dy=Dy, Dx=Dx, cls=cls)
         else:
-            c = mk_cond(m, rng, cls, Rc, Dy, Dx)
+            c = mk_cond(m, rng, cls, Rc, Dy, Dx, tag=tag)
         p = mk_pdf(m, rng, Rx, Dx, diag=("pdiag" in tag))      # tag '/pdiag': the prior is a GaussianDiagPDF
         params = dict(cls=cls, Rc=Rc, Rx=Rx, Dy=Dy, Dx=Dx)
         ce = m.transform("cond_entropy", c.reg, p.reg)
